@@ -104,7 +104,7 @@ pub fn run(tier: &str, seed: u64) -> i32 {
     let mut rep = Report::new("C09", tier, seed, "exploration");
     rep.rule = "per public configuration (circuit, n, evaluator, output set, temp-file mask) R executions with inputs all-0, all-1 and random and fresh coins under one fixed schedule; per (party, peer) the sequence of (direction, byte length) must be identical. distinct = configuration; non-trivial = at least two executions with different inputs were compared".into();
     rep.assumptions = vec!["fixed round-robin schedule with immediate delivery so that the per-party operation order is a function of the code path only".into(), "timing is not observed".into()];
-    let (n_cfg, reps) = if thorough { (400, 12) } else { (48, 6) };
+    let (n_cfg, reps) = if thorough { (500, 12) } else { (120, 6) };
     let outs = parallel_for(n_cfg, threads(), |i| one_config(i, seed, reps, thorough));
     for o in outs {
         rep.evaluations += o.runs as u64;
